@@ -251,6 +251,12 @@ const gossipSleep = time.Millisecond
 
 // NewEnv builds the network, runs it to the given height and wires the victim.
 func NewEnv(mode string, height uint64) (*Env, error) {
+	tEnv := time.Now()
+	defer func() {
+		if os.Getenv("C18_DEBUG") != "" {
+			fmt.Fprintln(os.Stderr, "NEWENV", mode, height, "took", time.Since(tEnv))
+		}
+	}()
 	e := &Env{Mode: mode, AdvIdx: 3, byCh: map[byte]p2p.Reactor{}, nameByCh: map[byte]string{}}
 	e.Dir = netsim.ScratchDir()
 	nodeOpts := func(i int) netsim.NodeOpts {
@@ -471,6 +477,12 @@ func (e *Env) WaitGossip(p *StubPeer, k int64) string {
 
 // Close stops everything.
 func (e *Env) Close() {
+	t0 := time.Now()
+	defer func() {
+		if os.Getenv("C18_DEBUG") != "" {
+			fmt.Fprintln(os.Stderr, "CLOSE took", time.Since(t0))
+		}
+	}()
 	atomic.StoreInt32(&formatLogs, 0)
 	for _, p := range e.SW.Peers().List() {
 		e.SW.StopPeerGracefully(p)
@@ -479,12 +491,23 @@ func (e *Env) Close() {
 	go func() {
 		defer close(done)
 		defer func() { recover() }()
+		t := time.Now()
+		lap := func(what string) {
+			if os.Getenv("C18_DEBUG") != "" {
+				fmt.Fprintln(os.Stderr, "  close:", what, time.Since(t))
+			}
+			t = time.Now()
+		}
 		e.BC.Stop()
+		lap("bc")
 		e.TxR.Stop()
+		lap("txr")
 		e.EvR.Stop()
+		lap("evr")
 		if e.Cons.IsRunning() {
 			e.Cons.Stop()
 		}
+		lap("cons")
 	}()
 	select {
 	case <-done:
